@@ -194,6 +194,24 @@ def entry_points(data, path, scratch, zpath=None):
     def cli_trace():
         cli.main(["fickling", "--trace", path])
 
+    def cli_terminal():
+        # the same two commands typed at a terminal (stdin and stdout say they are one)
+        class Tty(io.StringIO):
+            def isatty(self):
+                return True
+
+        from vlib.sandbox import Monitor
+
+        saved = sys.stdin, sys.stdout
+        sys.stdin, sys.stdout = Tty(), Tty()
+        Monitor.get().deny_spawn = True  # recorded all the same; a pager must not sit there waiting
+        try:
+            cli.main(["fickling", path])
+            cli.main(["fickling", "--trace", path])
+        finally:
+            Monitor.get().deny_spawn = False
+            sys.stdin, sys.stdout = saved
+
     def cli_check():
         cli.main(["fickling", "--check-safety", path])
 
@@ -229,7 +247,7 @@ def entry_points(data, path, scratch, zpath=None):
         ("StackedPickle.load", stacked), ("ast", decompile), ("ast.unparse", unparse),
         ("astunparse", unparse_legacy), ("Trace.run", trace), ("check_safety", safety),
         ("summaries", summaries), ("is_likely_safe", likely_safe), ("cli", cli_decompile),
-        ("cli --trace", cli_trace), ("cli --check-safety", cli_check),
+        ("cli --trace", cli_trace), ("cli at a terminal", cli_terminal), ("cli --check-safety", cli_check),
         ("cli --check-safety --print-results", cli_check_print),
     ]  # fmt: skip
 
@@ -472,6 +490,22 @@ BIG_INPUTS = (
     _big(1_300_000, b"cverif_canary\nfire\n(S'x'\ntR.", "after"),
     _big(9_000_000, b"cbuiltins\neval\n(S'1+1'\ntR.", "before"),
     _big(1_300_000, b"cos\nsystem\n(S'x'\ntR", "before"),  # truncated after a large prefix
+)
+
+
+# files shaped like torch's legacy serialisation (a stack of pickles: magic number, protocol
+# version, system info, the object, the storage keys), with globals named in the header pickles
+_MAGIC2 = b"\x80\x02\x8a\nl\xfc\x9cF\xf9 j\xa8P\x19."
+STACKED_INPUTS = (
+    b"cverif_canary\nfire\nI1\n." + b"I1001\n." + b"}." + b"N.",
+    b"cverif_canary\nfire\nL119547037146038801333356L\n." + b"I1001\n." + b"(dp0\n." + b"N." + b"(lp0\n.",
+    b"cos\nsystem\nS'touch VERIF_PWNED'\n." + b"I1001\n." + b"}." + b"N.",
+    b"cverif_canary\nfire\nI1\nI2\nI3\n." + b"N." + b"N.",
+    _MAGIC2 + b"\x80\x02M\xe9\x03." + b"\x80\x02}q\x00." + b"cverif_canary\nfire\n(S'x'\ntR." + b"\x80\x02]q\x00.",
+    _MAGIC2 + b"cverif_canary\nfire\nI1001\n." + b"\x80\x02}q\x00." + b"N.",
+    b"\x80\x02cverif_canary\nfire\nK\x01." + b"\x80\x02M\xe9\x03." + b"\x80\x02}q\x00." + b"N.",
+    # a program of more lines than a screen has
+    b"".join(b"ccollections\nOrderedDict\n)R0" for _ in range(60)) + b"cverif_canary\nfire\n(S'x'\ntR.",
 )
 
 
@@ -746,6 +780,15 @@ def run_shard(spec, seed):
                              sample={"big": len(big), "head": big[:60].hex()})  # fmt: skip
                     if f is not None:
                         f.case = {"big": BIG_INPUTS.index(big)}
+                        res.failures.append(f)
+                        return res
+
+            if spec["idx"] == 4:
+                for stacked in STACKED_INPUTS:
+                    f, reached = judge(stacked, scratch)
+                    res.note(stacked, True, klass=["legacy-layout"] + [f"returned:{n}" for n in sorted(reached)],
+                             sample={"stacked": stacked.hex()})  # fmt: skip
+                    if f is not None:
                         res.failures.append(f)
                         return res
 
